@@ -82,6 +82,10 @@ FOREIGN = [
     "k ${n:-d}", "k ${n-d}", "k $[n]", "k %(n)s", "k {n}", "k `n`",
     "k $n.x", "k $n-x", "k ${n}}", "k <v>", "k </a>", "k <a/>", "k %define",
     "k\tv", "k\nv", "k v\n", "<a\tb>", "&lt;a&gt;", "k &amp; v",
+    # a directive is '%' immediately followed by its name
+    "% define n v", "%\tdefine n v", "% include f", "% import p",
+    "%  define n v", "%\u3000include f", "%\u00a0import p", "% define",
+    "%% define n v", "%define\u00a0n v",
 ]
 FOLD_PAIRS = [("straße", "strasse"), ("ς", "σ"), ("ﬁle", "file"),
               ("ſ", "s"), ("maſt", "mast"), ("İx", "i̇x"), ("ǅ", "ǆ"),
